@@ -206,8 +206,10 @@ def check(case, obs):
         return
 
     before = fingerprint(data)
+    kw_before = repr(kw)
     out = call(tr.to_rfi, data, ch_arg, **kw)
     after = fingerprint(data)
+    obs.claim('input_intact', repr(kw) == kw_before, lambda: 'to_rfi changed the override lists it was given: %s -> %r' % (kw_before, kw))
     obs.claim('input_intact', not fp_diff(before, after), lambda: 'to_rfi changed its argument: %r' % fp_diff(before, after))
     if isinstance(chs_arg, np.ndarray) and raised(out):
         obs.claims['refuse'] += 1            # a form outside the documented ones may be refused
